@@ -254,6 +254,10 @@ class C02(PropDef):
         return cases
 
 
+# DEPTH <n> <modules>: regions of up to 300000 empty tags in front of the modules, built inside the harness and the driver's
+# closed form (tags = n + modules + 1): stack or work that adds up per skipped tag shows at this size
+DEPTH_CASES = ["DEPTH %d %d" % (n, m) for n in (0, 1, 1000, 100000, 300000) for m in (0, 1, 3)]
+
 # =========================================================================== C03
 
 def tag_area(sizes, rng, kind="tag", total=None):
@@ -347,7 +351,7 @@ class C03(PropDef):
                     area[o + 4:o + 8] = u32(rng.choice([0, 4, 7, len(area) - o + 1, len(area) - o + 8, rng.getrandbits(32)]))
                 cases.append("WALK %s %s %s" % (kind, hx(bytes(area)), rand_ops(rng, rng.randrange(5, 40))))
         # the MODULE iterator (part of the property): regions with modules, also behind tags of type 0 in the middle
-        return cases + _mbi.gen_interior_end(rng) + _mbi.gen_wellformed(rng, 20 if tier == "quick" else 200)
+        return cases + _mbi.gen_interior_end(rng) + _mbi.gen_wellformed(rng, 20 if tier == "quick" else 200) + DEPTH_CASES
 
     def oracle(self, case, impl, config):
         if case.startswith("SWEEP"):
@@ -1172,6 +1176,7 @@ class C08(PropDef):
         cases += [c for c in PROPS["C15"].gen(tier, rng) if c.startswith("CAST")][:: (5 if q else 1)]
         cases += ["FBT %d" % b for b in range(256)]
         cases += _mbi.gen_scale(rng)           # large structures: counts, lengths, MANY tags (stack / work per tag)
+        cases += DEPTH_CASES
         # arithmetic overflow points
         m = _mbi
         cases.append(m.sweep(m.mbi([m.tag(3, u32(10) + u32(5) + b"m\0")])))
